@@ -6,6 +6,7 @@ mod fhe;
 mod hal;
 mod ks;
 mod lut;
+mod mem;
 mod mul;
 mod rand;
 mod tmpbytes;
@@ -151,6 +152,60 @@ fn main() {
             }
             out.flush().unwrap();
             println!("ks: {} events", cases.len());
+        }
+        // hist <histories.ndjson> <events.ndjson>
+        "hist" => {
+            let cases = read_ndjson(&args[2]);
+            let mut out = BufWriter::new(std::fs::File::create(&args[3]).unwrap());
+            for (idx, c0) in cases.iter().enumerate() {
+                let mut c = c0.clone();
+                if c.get("id").is_none() {
+                    c["id"] = serde_json::json!(idx + 1);
+                }
+                let ev = mem::run_hist(&c);
+                writeln!(out, "{}", serde_json::to_string(&ev).unwrap()).unwrap();
+            }
+            out.flush().unwrap();
+            println!("hist: {} events", cases.len());
+        }
+        // guardrun <sub> <descriptors.ndjson> <events.ndjson>: runs `<sub>` in child processes (guard-page mode is inherited
+        // through VERIF_GUARD); a child killed by a signal is bisected down to the single descriptor that kills it, which is
+        // written to <events>.signals.ndjson instead of producing events.
+        "guardrun" => {
+            let sub = args[2].clone();
+            let lines: Vec<String> = std::fs::read_to_string(&args[3]).unwrap().lines().filter(|l| !l.trim().is_empty()).map(|l| l.to_string()).collect();
+            let mut evs = BufWriter::new(std::fs::File::create(&args[4]).unwrap());
+            let mut sigs = BufWriter::new(std::fs::File::create(format!("{}.signals.ndjson", &args[4])).unwrap());
+            let exe = args[0].clone();
+            let tmp = format!("{}.chunk", &args[4]);
+            fn go(exe: &str, sub: &str, tmp: &str, lines: &[String], evs: &mut dyn Write, sigs: &mut dyn Write, depth: usize) {
+                if lines.is_empty() {
+                    return;
+                }
+                let dpath = format!("{tmp}.{depth}.descs");
+                let epath = format!("{tmp}.{depth}.events");
+                std::fs::write(&dpath, lines.join("\n") + "\n").unwrap();
+                let st = std::process::Command::new(exe).args([sub, &dpath, &epath]).stdout(std::process::Stdio::null()).status().unwrap();
+                if st.success() {
+                    evs.write_all(&std::fs::read(&epath).unwrap()).unwrap();
+                } else if lines.len() == 1 {
+                    use std::os::unix::process::ExitStatusExt;
+                    let rec = serde_json::json!({"desc": serde_json::from_str::<serde_json::Value>(&lines[0]).unwrap(), "signal": st.signal().unwrap_or(0), "code": st.code().unwrap_or(-1)});
+                    writeln!(sigs, "{}", rec).unwrap();
+                } else {
+                    let mid = lines.len() / 2;
+                    go(exe, sub, tmp, &lines[..mid], evs, sigs, depth + 1);
+                    go(exe, sub, tmp, &lines[mid..], evs, sigs, depth + 1);
+                }
+                let _ = std::fs::remove_file(&dpath);
+                let _ = std::fs::remove_file(&epath);
+            }
+            for chunk in lines.chunks(400) {
+                go(&exe, &sub, &tmp, chunk, &mut evs, &mut sigs, 0);
+            }
+            evs.flush().unwrap();
+            sigs.flush().unwrap();
+            println!("guardrun {}: {} descriptors", sub, lines.len());
         }
         // ckks <programs.ndjson> <events.ndjson>
         "ckks" => {
